@@ -812,7 +812,11 @@ pub struct SimpleTailsAccessor {
 
 impl RevocationTailsAccessor for SimpleTailsAccessor {
     fn access_tail(&self, tail_id: u32, accessor: &mut dyn FnMut(&Tail)) -> ClResult<()> {
-        accessor(&self.tails[tail_id as usize]);
+        let tail = self
+            .tails
+            .get(tail_id as usize)
+            .ok_or_else(|| err_msg!("Tail index {} is out of range", tail_id))?;
+        accessor(tail);
         Ok(())
     }
 }
@@ -930,6 +934,9 @@ impl Witness {
         issued.remove(&rev_idx);
 
         for j in issued.into_iter().rev() {
+            if j == 0 || j > max_cred_num {
+                return Err(err_msg!("Revocation index in delta is outside of valid range"));
+            }
             let index = max_cred_num + 1 - j + rev_idx;
             rev_tails_accessor.access_tail(index, &mut |tail| {
                 omega = omega.add(&tail.0).unwrap();
@@ -978,6 +985,9 @@ impl Witness {
         for (j, add) in indexes.into_iter().rev() {
             if rev_idx == 0 || rev_idx == j || rev_idx > max_cred_num {
                 continue;
+            }
+            if j == 0 || j > max_cred_num {
+                return Err(err_msg!("Revocation index in delta is outside of valid range"));
             }
             let index = max_cred_num + 1 - j + rev_idx;
             rev_tails_accessor.access_tail(index, &mut |tail| {
